@@ -7,9 +7,11 @@
 
 namespace sim {
 
+extern uint64_t g_ticks;
 Tape T;
 Log L;
 Shared* SH = nullptr;
+uint64_t* g_heartbeat = nullptr;
 
 uint64_t draw64() { uint64_t a = T.draw(0xFFFFFFFFu), b = T.draw(0xFFFFFFFFu); return (a << 32) | b; }
 Rng sub_rng() { Rng r; r.seed(T.draw(0xFFFFFFFFu), 0x5eed); return r; }
@@ -18,7 +20,7 @@ void Log::ev(const char* kind, int64_t a, int64_t b, int64_t c) {
     events++;
     for (const char* p = kind; *p; p++) mix((uint8_t)*p);
     mix((uint64_t)a); mix((uint64_t)b); mix((uint64_t)c);
-    if (keep && text.size() < 4000) text.push_back(fmt("%s %lld %lld %lld", kind, (long long)a, (long long)b, (long long)c));
+    if (keep && text.size() < 4000) text.push_back(fmt("%s %lld %lld %lld @%llu", kind, (long long)a, (long long)b, (long long)c, (unsigned long long)g_ticks));
 }
 void Log::bytes(const void* p, size_t n) { mix(fnv(p, n)); mix(n); }
 
